@@ -236,6 +236,37 @@ def rule_paxis(ctx):
             r.bad(Finding('C11.P1', _f(fi), norm(n), '%s: direction axis of `%s` is indexed with `%s`%s - the value of one direction is used '
                           'for another' % (fi.qualname, nm, norm(ix), (' inside the loop over `%s`' % vars_[-1]) if vars_ else ' outside any loop over directions'),
                           fi.file, n.lineno))
+        # work arrays allocated with the number of directions as their *leading* dimension (`X = numpy.zeros((P, N, N))`):
+        # inside a loop over directions their axis 0 is the direction axis
+        pfirst = {}
+        for st in walk_no_nested(fi.node):
+            if isinstance(st, ast.Assign) and len(st.targets) == 1 and isinstance(st.targets[0], ast.Name) and isinstance(st.value, ast.Call) \
+                    and (dotted_name(st.value.func) or '').split('.')[-1] in ('zeros', 'empty', 'ones') and st.value.args \
+                    and isinstance(st.value.args[0], ast.Tuple) and st.value.args[0].elts and isinstance(st.value.args[0].elts[0], ast.Name) \
+                    and st.value.args[0].elts[0].id in psyms:
+                pfirst[st.targets[0].id] = st
+        # a name that is also bound otherwise is not tracked
+        for st in walk_no_nested(fi.node):
+            if isinstance(st, ast.Assign):
+                for t in st.targets:
+                    if isinstance(t, ast.Name) and t.id in pfirst and pfirst[t.id] is not st:
+                        pfirst.pop(t.id)
+        for n in walk_no_nested(fi.node):
+            if isinstance(n, ast.Subscript) and isinstance(n.value, ast.Name) and n.value.id in pfirst:
+                sl = n.slice
+                first = sl.elts[0] if isinstance(sl, ast.Tuple) and sl.elts else sl
+                vars_ = in_loop.get(id(n), [])
+                n_sub += 1
+                if _is_full_slice(first) or (isinstance(first, ast.Constant) and first.value is Ellipsis):
+                    r.ok(construct=None)
+                elif vars_ and any(_is_pvar_index(first, v) for v in vars_):
+                    r.ok(construct=_f(fi) + ':' + norm(n), sample='%s: `%s` (leading dimension P) is indexed with the direction variable' % (fi.qualname, norm(n)[:50]))
+                elif isinstance(first, ast.Name) and _bound_by_p_loop(fi, first.id, psyms):
+                    r.ok(construct=None)
+                else:
+                    r.bad(Finding('C11.P1', _f(fi), norm(n), '%s: `%s` has the number of directions as its leading dimension but is indexed with `%s`%s - the '
+                                  'value of one direction is used for another' % (fi.qualname, n.value.id, norm(first),
+                                                                                 (' inside the loop over `%s`' % vars_[-1]) if vars_ else ''), fi.file, n.lineno))
     r.stats = {'axis1_subscripts': n_sub}
     r.floor = 150
     return r
